@@ -758,6 +758,9 @@ func (w *World) Dump(filter func(path string, data []byte) (string, bool)) strin
 		b.WriteByte('\n')
 	}
 	b.WriteString(w.ZK.Dump(filter))
+	if w.ZK.Down {
+		b.WriteString("zookeeper ensemble down\n")
+	}
 	w.mu.Lock()
 	var fsn []string
 	for p := range w.VFS {
